@@ -11,10 +11,14 @@
   * `..` needs a directory (and stays at the root); a trailing `/` or `/.` needs a directory;
     `.` and empty components of an absolute path are dropped;
   * `opendir` needs a directory and a free descriptor; it asks for no read permission;
-  * `fstatat(follow)` follows a final symbolic link up to 8 times, relative to the link's directory.
+  * `fstatat(follow)` follows a final symbolic link up to 8 times (`GlobTables.symloopMax`, re-extracted
+    from `_POSIX_SYMLOOP_MAX`), relative to the link's directory.
 -/
 import YashModel.Glob.Model
+import YashModel.Glob.Spec
+import YashModel.Generated.GlobTables
 namespace YashModel.Glob
+open YashModel.Generated
 
 inductive NodeKind where
   | file
@@ -31,8 +35,13 @@ structure World where
 def World.kindAt (w : World) (key : List Name) : Option NodeKind :=
   (w.entries.find? (fun x => x.1 == key)).map (·.2)
 
-/-- the owner's search permission -/
-def ownerSearch (mode : Nat) : Bool := mode / 64 % 2 == 1
+/-- the owner's search permission: the test `FileSystem::get` makes on a directory before it looks a
+    name up in it, `permissions.contains(Mode::USER_EXEC)` — mask and kind of test re-extracted from
+    /repo on every run (`GlobTables.searchMask` = 0o100, `searchNeedsAll` = `contains`); equal to
+    `mode / 64 % 2 == 1` (`ownerSearch_bit`) -/
+def ownerSearch (mode : Nat) : Bool :=
+  if GlobTables.searchNeedsAll then mode &&& GlobTables.searchMask == GlobTables.searchMask
+  else mode &&& GlobTables.searchMask != 0
 
 def World.isDir (w : World) (key : List Name) : Bool :=
   match w.kindAt key with
@@ -108,11 +117,30 @@ def World.children (w : World) (key : List Name) : List Name :=
 
 /-- the two oracles of `Model.lean`, derived from the world -/
 def fsOfWorld (w : World) : Fs where
-  exist p := !p.contains '\x00' && w.follow 8 (absPath p)
+  exist p := !p.contains '\x00' && w.follow GlobTables.symloopMax (absPath p)
   list d :=
     if d.contains '\x00' || !w.fdFree then none
     else match w.get (absPath d) with
       | some key => if w.isDir key then some (dot :: dotdot :: w.children key) else none
       | none => none
+
+/-- a plain file name: non-empty, without slash or NUL, and not `.` or `..` -/
+def plainName (n : Name) : Bool :=
+  validName n && !n.contains '\x00' && n != dot && n != dotdot
+
+def nodupKeys : List (List Name) → Bool
+  | [] => true
+  | k :: ks => !ks.contains k && nodupKeys ks
+
+/-- The decidable class of worlds for which the two oracles are consistent (`wf_fsOfWorld`,
+    WorldWF.lean): every key occurs once, every name on every key is plain, there is no symbolic link,
+    every directory may be searched by its owner, and the working directory `/t` exists. -/
+def goodWorld (w : World) : Bool :=
+  nodupKeys (w.entries.map (·.1))
+    && w.entries.all (fun x => x.1.all plainName && (match x.2 with
+        | NodeKind.link _ => false
+        | NodeKind.dir m => ownerSearch m
+        | NodeKind.file => true))
+    && (fsOfWorld w).exist []
 
 end YashModel.Glob
